@@ -229,18 +229,35 @@ func (rl *RateLimitValidator) cleanupRoutine() {
 // cleanupOldLimiters removes IP limiter entries that haven't been accessed recently.
 // Called periodically from a background goroutine.
 func (rl *RateLimitValidator) cleanupOldLimiters() {
-	cutoff := time.Now().Add(-10 * time.Minute)
+	now := time.Now()
 
 	rl.ipLimiters.Range(func(key string, limiterInfo *ipLimiterInfo) bool {
 		limiterInfo.mu.RLock()
 		lastAccess := limiterInfo.lastAccess
+		requestLimit := limiterInfo.requestLimit
 		limiterInfo.mu.RUnlock()
 
-		if lastAccess.Before(cutoff) {
+		if now.Sub(lastAccess) > rl.idleCutoff(requestLimit) {
 			rl.ipLimiters.Delete(key)
 		}
 		return true
 	})
+}
+
+// idleCutoff is how long a limiter has to sit unused before it may be dropped.
+// A dropped limiter comes back as a full bucket on the client's next request, so it
+// must have had the time to refill completely: with a low rate and a large burst
+// (say 1/min, burst 20) ten minutes are not enough and the client would be handed
+// a fresh burst on top of what it already used.
+func (rl *RateLimitValidator) idleCutoff(requestLimit int) time.Duration {
+	cutoff := 10 * time.Minute
+	if requestLimit > 0 && rl.burstSize > 0 {
+		refill := time.Duration(float64(rl.burstSize)/float64(requestLimit)*float64(time.Minute)) + time.Second
+		if refill > cutoff {
+			cutoff = refill
+		}
+	}
+	return cutoff
 }
 
 func (rl *RateLimitValidator) Stop() {
